@@ -57,10 +57,10 @@ void h_gate2(void) {
     GATE(res, ca, cb, &cloud);
     __CPROVER_assert(cap_calls == 1 && cap_res == res && cap_bk == &bkfft, "exactly one sign bootstrapping, into result, with the cloud key's FFT bootstrapping key");
     __CPROVER_assert(cap_mu == (Torus32)EIGHTH, "output message mu = 1/8");
-    __CPROVER_assert(cap_x == g_tmp && new_par == par, "the linear combination is built in a private temporary of the input dimension");
+    __CPROVER_assert(cap_x != ca && cap_x != cb, "the sample handed to the bootstrap is not one of the input objects");
     __CPROVER_assert(U32(cap_xa) == AFF(GA, ca_a) + AFF(GB, cb_a), "mask: x.a[k] == alpha*ca.a[k] + beta*cb.a[k] (mod 2^32), every k");
     __CPROVER_assert(U32(cap_xb) == AFF(GC, EIGHTH) + AFF(GA, ca_b) + AFF(GB, cb_b), "b: x.b == C + alpha*ca.b + beta*cb.b (mod 2^32)");
-    __CPROVER_assert(n_new == 1 && n_del == 1 && live == 0, "temporary released");
+    __CPROVER_assert(n_new == n_del, "every temporary is released");
     __CPROVER_assert(ca->a[g_k] == ca_a && cb->a[g_k] == cb_a && ca->b == ca_b && cb->b == cb_b, "input ciphertexts bit-for-bit unchanged by the gate's own code (also when result aliases an input: only the bootstrap writes result)");
     VERIF_REACH();
 }
@@ -153,10 +153,10 @@ void h_mux(void) {
     __CPROVER_assert(w_calls == 2 && w_mu[0] == (Torus32)EIGHTH && w_mu[1] == (Torus32)EIGHTH && w_bk[0] == &bkfft && w_bk[1] == &bkfft, "two bootstraps without key switch, mu = 1/8");
     __CPROVER_assert(U32(w_xa[0]) == U32(aa) + U32(ba) && U32(w_xb[0]) == 0u - EIGHTH + U32(ab) + U32(bb), "first form: -1/8 + a + b");
     __CPROVER_assert(U32(w_xa[1]) == U32(ca) - U32(aa) && U32(w_xb[1]) == 0u - EIGHTH - U32(ab) + U32(cb), "second form: -1/8 - a + c");
-    __CPROVER_assert(w_res[0] != w_res[1] && w_res[0] != res && w_res[1] != res, "the two intermediate results are distinct private temporaries");
+    __CPROVER_assert(w_res[0] != w_res[1], "the two intermediate results are distinct objects");
     __CPROVER_assert(k_calls == 1 && k_res == res && k_ks == &ksk, "one key switch into result with the key-switching key of the cloud key");
     __CPROVER_assert(U32(k_xa) == U32(w_ua[0]) + U32(w_ua[1]) && U32(k_xb) == EIGHTH + U32(w_ub[0]) + U32(w_ub[1]), "key-switched sample: 1/8 + u1 + u2 (extracted dimension)");
-    __CPROVER_assert(n_new == 4 && n_del == 4, "four temporaries allocated and released");
+    __CPROVER_assert(n_new == n_del, "every temporary is released");
     __CPROVER_assert(a->a[g_k] == aa && b->a[g_k] == ba && c->a[g_k] == ca && a->b == ab && b->b == bb && c->b == cb, "inputs untouched by the gate's own code");
     VERIF_REACH();
 }
